@@ -1,0 +1,37 @@
+// Copyright 2026 Juan Pablo Tosso and the OWASP Coraza contributors
+// SPDX-License-Identifier: Apache-2.0
+
+//go:build verif && !tinygo && !coraza.no_memoize
+
+package memoize
+
+import "sort"
+
+// VerifEntry describes one cache entry (verification tooling only).
+type VerifEntry struct {
+	Key    string
+	Owners []uint64
+	Type   string
+}
+
+// VerifCompiledIn reports whether the process-wide cache is compiled in.
+const VerifCompiledIn = true
+
+// VerifSnapshot returns the current content of the process-wide cache.
+func VerifSnapshot() []VerifEntry {
+	var out []VerifEntry
+	cache.Range(func(key, value any) bool {
+		e := value.(*entry)
+		e.mu.Lock()
+		ve := VerifEntry{Key: key.(string), Type: typeName(e.value)}
+		for o := range e.owners {
+			ve.Owners = append(ve.Owners, o)
+		}
+		e.mu.Unlock()
+		sort.Slice(ve.Owners, func(i, j int) bool { return ve.Owners[i] < ve.Owners[j] })
+		out = append(out, ve)
+		return true
+	})
+	sort.Slice(out, func(i, j int) bool { return out[i].Key < out[j].Key })
+	return out
+}
